@@ -479,10 +479,12 @@ macro_rules! is_ilc {
     (@internal $self:ident, $index:expr) => {{
         // NOTE: The conditions here then are that:
         // - `index + 1` is a digit after consuming digit separators
+        //   (at the end of the input there is none: that would be a
+        //   trailing digit separator, as in `is_il!`)
 
         let next = indexing!(@nextc $self, $index);
         let slc = $self.byte.slc;
-        slc.get(next).map_or(true, |&x| $self.is_digit(x))
+        slc.get(next).map_or(false, |&x| $self.is_digit(x))
     }};
 
     (@internal $self:ident) => {
